@@ -193,6 +193,9 @@ Fixpoint delr (S : net) (i : node) : net :=
 
 Inductive event :=
 | Fetch (i j : node)        (* i processes j's current advertisement (advertDataHandler + ribUpdate) *)
+| Deliver (i j : node) (adv : list adv_entry)
+                            (* i processes an advertisement received from j earlier (possibly stale, or
+                               arbitrary: ribUpdate does not know where it came from)                  *)
 | NbrUp (i j : node)        (* i creates a neighbour entry for j (first Sync Interest heard)           *)
 | NbrDead (i j : node)      (* i declares j dead (checkDeadNeighbors)                                   *)
 | RouterUp (i : node)       (* a router starts with fresh tables                                        *)
@@ -209,6 +212,15 @@ Definition step (S : net) (e : event) : net * bool :=
             (setr S (mkRouter i rb (nbrs ri)), d)
           else (S, false)
       | _, _ => (S, false)
+      end
+  | Deliver i j adv =>
+      match getr S i with
+      | Some ri =>
+          if memN j (nbrs ri) then
+            let (rb, d) := rib_update i (rrib ri) j adv in
+            (setr S (mkRouter i rb (nbrs ri)), d)
+          else (S, false)
+      | None => (S, false)
       end
   | NbrUp i j =>
       match getr S i with
